@@ -14,6 +14,17 @@ Every statement is for all states / byte strings / line lists; nothing is sample
 -/
 namespace Ioflo.Sse
 
+/-! ## the line search -/
+
+/-- The structural search `scan` used by the model and the proofs is the code's search, statement by
+statement (`scanFind`: `raw.find` of each eol, the smallest index wins, CRLF before CR at the same
+index, `skip` when the CR was the last byte) — for every buffer. -/
+theorem C33_scan_is_find (raw : Bytes) : scanFind raw = scan raw := scanFind_eq_scan raw
+
+example : scanFind [97, 13, 10, 98, 10] = some ([97], [98, 10], false) ∧
+    scanFind [97, 10, 98, 13, 10] = some ([97], [98, 13, 10], false) ∧
+    scanFind [97, 13] = some ([97], [], true) := by decide
+
 /-! ## any split -/
 
 /-- **Two receives = one receive**, from every parser state: the events, ids, retry and status
